@@ -200,39 +200,7 @@ def check_lafem_transfer(ck, facts):
 
 # ---- Global::Transfer ---------------------------------------------------------------------------------
 
-def after_on_all_paths(fn, anchor, pred):
-    """every path from statement `anchor` to a normal exit executes a CFG element satisfying pred after it"""
-    cfg = fn.cfg
-    w = cfg.block_of(anchor["i"])
-    if w is None:
-        return False
-    b0, pos = w
-    els = cfg.blocks[b0]["el"]
-    for e in els[pos + 1:]:
-        n = fn.by_id(e)
-        if n is not None and pred(n):
-            return True
-    marked = set()
-    for b in cfg.blocks.values():
-        for e in b["el"]:
-            n = fn.by_id(e)
-            if n is not None and pred(n):
-                marked.add(b["id"])
-                break
-    exits = set(cfg.normal_exit_preds())
-    if b0 in exits:
-        return False
-    seen = set()
-    st = [s for s in cfg.succ.get(b0, [])]
-    while st:
-        b = st.pop()
-        if b in seen or b in marked:
-            continue
-        seen.add(b)
-        if b in exits:
-            return False
-        st.extend(cfg.succ.get(b, []))
-    return True
+after_on_all_paths = dfl.after_on_all_paths
 
 
 def vec_id(n, rs=None):
